@@ -120,6 +120,96 @@ def mw_run(r, h_mw, sd, n, timeout, only=None):
     elif rc != 0 or not outs:
         r.hits.append(Hit('tie', 'C07:multi_harness', 'c07_multi %s failed rc=%d: %s' % (' '.join(args), rc, out[-600:]),
                           {'harness': 'c07_multi', 'args': args}))
+def tp_run(ctx, r, h_tp, drv, sd, n, nseq, timeout, only=None, only_seq=False):
+    """round h12a — the TIMED PREDICATE forms of the public header (harness/c07_tpred.cpp).
+    RT: one waiter (task / OS thread) inside condition_variable(_any)::wait_for / wait_until (lock, [stop_token,] t, pred), one notifier
+    (OS thread / task) that — in the late scenarios — holds the user lock from before the waiter's re-lock attempt (seen through a counting user
+    mutex: no timing margin) until it has written the predicate; monitors: returned value == predicate read under the lock right after the
+    return, lock owned on return and at every evaluation, no false before the deadline, the call returns.
+    SEQ: a scripted predicate and a passed / near deadline on one thread, DIFF of (trace of evaluations and inner waits, returned value) against
+    the extracted loop of Model/TimedPredLoop.v with the on-timeout expression regenerated from the header."""
+    def one(args, tag):
+        rc, out = sh([h_tp] + args, timeout=timeout)
+        lines = out.split('\n')
+        if rc != 0 or not [x for x in lines if x.startswith('OUT ')]:
+            r.hits.append(Hit('tie', 'C07:tpred_harness', 'c07_tpred %s failed rc=%d: %s' % (' '.join(args), rc, out[-600:]),
+                              {'harness': 'c07_tpred', 'args': args}))
+        return lines
+    # ---- RT
+    if not only_seq:
+        lines = one(['one', str(sd), str(only)] if only is not None else [str(sd), str(n)], 'rt')
+        ins = {x.split(' ')[2]: x for x in lines if x.startswith('IN TP ')}
+        outs = [x for x in lines if x.startswith('OUT TP ')]
+        r.evaluations += len(outs)
+        for i_ in list(ins.values())[:2]:
+            r.sample({'timed_pred_case': i_})
+        for o_ in outs:
+            cid = o_.split(' ')[2]
+            i_ = ins.get(cid, '')
+            f = dict(x.split('=', 1) for x in i_.split(' ')[3:] if '=' in x)
+            r.count('TP timing=%s waiter=%s notifier=%s' % (f.get('timing'), f.get('waiter'), f.get('notifier')))
+            r.count('TP cv=%s form=%s' % (f.get('cv'), f.get('form')))
+            ex = ' exercised=1 ' in o_
+            if f.get('timing', '').startswith('late') or f.get('timing') == 'flip':
+                r.extra['timed_pred_late_exercised' if ex else 'timed_pred_late_degraded'] = r.extra.get('timed_pred_late_exercised' if ex else 'timed_pred_late_degraded', 0) + 1
+            if ex:
+                r.nontrivial(i_)
+            if ' ok=1 ' in o_:
+                continue
+            m = re.search(r' what=(\w+)', o_)
+            what = m.group(1) if m else 'unknown'
+            detail = o_.split('detail=', 1)[1] if 'detail=' in o_ else o_
+            r.hits.append(Hit('monitor', 'C07:rt:timed_pred:%s:%s' % (f.get('timing', 'x'), what),
+                              'timed predicate wait (%s::%s, %s, waiter %s, notifier %s, scenario %s): %s -- case [%s]' % (
+                                  f.get('cv'), f.get('form'), f.get('mutex'), f.get('waiter'), f.get('notifier'), f.get('timing'), detail[:500], i_),
+                              {'harness': 'c07_tpred', 'args': ['one', sd, int(cid)], 'case': i_, 'observed': o_[:700]}))
+        dead = [x for k, x in ins.items() if k not in set(y.split(' ')[2] for y in outs)]
+        if dead:
+            i_ = dead[-1]
+            f = dict(x.split('=', 1) for x in i_.split(' ')[3:] if '=' in x)
+            r.hits.append(Hit('monitor', 'C07:rt:timed_pred:%s:crash' % f.get('timing', 'x'),
+                              'the process died inside a timed predicate wait case: [%s] tail [%s]' % (i_, ' | '.join(lines[-3:])[-300:]),
+                              {'harness': 'c07_tpred', 'args': ['one', sd, int(i_.split(' ')[2])], 'case': i_}))
+    # ---- SEQ
+    if only is not None and not only_seq:
+        return
+    lines = one((['one', str(sd), str(only), 'seq'] if only is not None else [str(sd), str(nseq), 'seq']), 'seq')
+    ins = [x for x in lines if x.startswith('IN TPRED ')]
+    outs = [x for x in lines if x.startswith('OUT TPRED ')]
+    rc2, mout = sh([drv], input='\n'.join(ins) + '\n', timeout=300)
+    mouts = [x for x in mout.split('\n') if x.startswith('OUT TPRED ')]
+    inmap = {x.split(' ')[2]: x for x in ins}
+    diffs, nn = diff_lines(ctx, outs, mouts)
+    r.evaluations += len(outs)
+    r.traces += nn
+    for i_ in ins:
+        p = i_.split(' ')
+        r.count('TPRED class=%s script=%s' % (p[3], p[4]))
+        if p[4].startswith('0'):
+            r.nontrivial(i_)
+    for i_, o_ in list(zip(ins, outs))[:1]:
+        r.sample({'timed_pred_scripted': i_, 'observed': o_})
+    for (k, a, b) in diffs[:6]:
+        i_ = inmap.get(k[1], '')
+        cid = k[1]
+        # the same comparison as a monitor on the implementation: the call must return the value of its LAST predicate evaluation, made after the last inner wait
+        m = re.search(r'trace=(\S+) ret=(\d)', a)
+        stale = bool(m) and not m.group(1).endswith('P' + m.group(2))
+        if stale:
+            r.hits.append(Hit('monitor', 'C07:seq:timed_pred:stale_value',
+                              'scripted timed predicate wait on one thread (nobody notifies, every inner wait times out): the call returned %s but the trace of '
+                              'predicate evaluations / inner waits is %s — the returned value is not the predicate evaluated after the last inner wait '
+                              '(model: %s) -- case [%s]' % (m.group(2), m.group(1), b, i_),
+                              {'harness': 'c07_tpred', 'args': ['one', sd, int(cid), 'seq'], 'case': i_, 'impl': a, 'model': b}))
+        r.hits.append(Hit('corr', 'C07:seq:timed_pred:correspondence',
+                          'timed predicate loop: implementation and model (TimedPredLoop.v with the regenerated on-timeout expression) differ: impl [%s] model [%s] case [%s]' % (a, b, i_),
+                          {'harness': 'c07_tpred', 'args': ['one', sd, int(cid), 'seq'], 'case': i_, 'impl': a, 'model': b}))
+    for m_ in [x for x in lines if x.startswith('MON TPRED ')]:
+        mm = re.search(r'what=(\w+)', m_)
+        r.hits.append(Hit('monitor', 'C07:seq:timed_pred:%s' % (mm.group(1) if mm else 'x'), m_[:500],
+                          {'harness': 'c07_tpred', 'args': ['one', sd, int(m_.split(' ')[2]), 'seq'], 'observed': m_[:500]}))
+
+
 def run_abort(ctx, r, drv):
     """round w11c — abort_all on the real pika::detail::condition_variable (harness/c07_abort.cpp, plain OS threads, own process per
     case): n queued waiters, then abort_all(lock) / the destructor.  Monitor (no model): every waiter's wait ends with the
@@ -193,7 +283,14 @@ def run(ctx):
               'order relative to registration (earliest first / latest first / a middle one first / any permutation: predicate set under the user lock '
               '+ notify_all), optionally new waiters register while those deregister; the leavers overwrite their dead stack frames; then '
               'request_stop() from a task or an OS thread; monitor: every leaver returns true, every remaining waiter is still waiting before and '
-              'returns false within 10 s after request_stop (which returns true), user lock owned, no crash.  Non-trivial lock-step case = some thread blocked in '
+              'returns false within 10 s after request_stop (which returns true), user lock owned, no crash.  TIMED-PRED (c07_tpred <seed> <n>): one waiter (pika task / plain OS thread) in '
+              'condition_variable::wait_for|wait_until(unique_lock<M>&, t, pred) / condition_variable_any::...(Lock&, [stop_token,] t, pred) with M = a counting user mutex around std::mutex / spinlock / '
+              'pika::mutex, one notifier (OS thread / task): never | early_notify | early_silent (predicate set under the lock, no notification) | late_notify / late_silent / late_false / late_stop '
+              '(the notifier takes the lock while the waiter sleeps and keeps it until it SEES the waiter blocked re-acquiring it after the deadline, then writes the predicate [+ notify_all / '
+              'request_stop] and unlocks) | flip (set + notify early, reset to false while the waiter is blocked re-acquiring the lock); for OS-thread waiters no notification is issued while they '
+              'sleep (F14); monitors: returned value == predicate read under the lock right after the return, lock owned on return and at every evaluation of the predicate, no false before the '
+              'deadline, no false when the predicate was set > 1 ms before the deadline, the call returns; SEQ (c07_tpred <seed> <n> seq): one thread, scripted predicate, passed / 1..3 ms deadline: '
+              'trace of evaluations and inner waits + returned value DIFFed against the extracted Model/TimedPredLoop.v.  Non-trivial lock-step case = some thread blocked in '
               'suspend or in resume at some step; distinct = distinct IN lines')
     ctx.build_pika()
     drv = ctx.build_model('C07', 'ExtractC07.v', 'drv_c07.ml')
@@ -201,6 +298,7 @@ def run(ctx):
     h_rt = ctx.build_harness('c07_rt', 'c07_rt.cpp')
     h_f14 = ctx.build_harness('c07_f14', 'c07_f14.cpp')
     h_mw = ctx.build_harness('c07_multi', 'c07_multi.cpp')
+    h_tp = ctx.build_harness('c07_tpred', 'c07_tpred.cpp')
     quick = ctx.tier == 'quick'
     seeds = [ctx.seed] if quick else [ctx.seed + 1000 * k for k in range(4)]
     if ctx.replay:
@@ -211,12 +309,17 @@ def run(ctx):
             if rp.get('harness') == 'c07_multi' and rp.get('args', [''])[0] == 'one':
                 mw_run(r, h_mw, int(rp['args'][1]), 1, 120, only=int(rp['args'][2]))
                 return r
+            if rp.get('harness') == 'c07_tpred' and rp.get('args', [''])[0] == 'one':
+                tp_run(ctx, r, h_tp, drv, int(rp['args'][1]), 1, 1, 180, only=int(rp['args'][2]), only_seq=(len(rp['args']) > 3))
+                return r
         except Exception:
             pass
     n_ls = 3000 if quick else 20000
     n_rt = 700 if quick else 5000
     n_slow = 400 if quick else 1500
     n_mw = 1000 if quick else 6000
+    n_tp = 160 if quick else 1200
+    n_tpseq = 120 if quick else 600
     for sd in seeds:
         # ---- lock-step
         rc, out = sh([h_ls, str(sd), str(n_ls)], timeout=600 if quick else 3000)
@@ -263,6 +366,8 @@ def run(ctx):
         rt_run(r, h_rt, sd, n_slow, 'slow', 600 if quick else 1500)
         # ---- several stop-token waits on one stop state, leaving in every order relative to their registration
         mw_run(r, h_mw, sd, n_mw, 300 if quick else 900)
+        # ---- timed predicate forms: late / early / never scenarios + the scripted sequential DIFF against Model/TimedPredLoop.v
+        tp_run(ctx, r, h_tp, drv, sd, n_tp, n_tpseq, 600 if quick else 1800)
     # ---- F14: the witness of C07_os_timed_wait_blocks_notifier_refuted on the real code (bounded by a watchdog)
     rc, out = sh([h_f14], timeout=60)
     o_ = [x for x in out.split('\n') if x.startswith('OUT F14')]
